@@ -694,6 +694,7 @@ def prof_C14(d, rng):
     prof_C03(d, rng)
     d["p_summary_format"] = 0.6
     d["junit"] = rng.random() < 0.1
+    d["opts"] = dict(d.get("opts") or {}, allow_no_examples=True)
     d["hook_interrupts"] = rng.random() < 0.2
 
 
